@@ -53,6 +53,14 @@ class C17(Prop):
             ("dit_content_rule", "( 2.5.6.4 DESC 'content rule for organization' NOT ( x121Address $ telexNumber ) )"),
             ("object_class", "( 1.2 DESC 'share \\5c27th floor' )"),
             ("object_class", "( 1.2 X-a (   ) X-a 'again' )"),
+            # quoted SYNTAX bodies (the form Active Directory writes) that end in '}' without being a noidlen
+            ("attribute_type", "( 1.0 SYNTAX 'OctetString{64}' )"),
+            ("attribute_type", "( 1.2.840.113556.1.4.149 NAME 'attributeSecurityGUID' SYNTAX '1.3.6.1.4.1.1466.115.121.1.40{}' SINGLE-VALUE )"),
+            ("attribute_type", "( 1.0 SYNTAX '1{5}' )"),
+            ("attribute_type", "( 1.0 SYNTAX '1.2.3{64}' )"),
+            ("attribute_type", "( 1.0 SYNTAX '1.2.3{x}' )"),
+            ("attribute_type", "( 1.0 SYNTAX '{1}' )"),
+            ("attribute_type", "( 1.0 SYNTAX 'a}' )"),
         ]
         out = []
         for k, t in texts:
